@@ -19,9 +19,13 @@ type c18case struct {
 	name   string // package path string
 	state  string // absent empty content dir symlink noparent readonlydir
 	target string // default relative nested absolute
+	env    string // a MOCKERY_* variable exported while init runs ("" = none)
 }
 
 func (cs c18case) id() string {
+	if cs.env != "" {
+		return fmt.Sprintf("pkg=%q state=%s target=%s env=%s", cs.name, cs.state, cs.target, cs.env)
+	}
 	return fmt.Sprintf("pkg=%q state=%s target=%s", cs.name, cs.state, cs.target)
 }
 
@@ -43,23 +47,29 @@ func C18(c *core.Ctx) error {
 			cases = append(cases, cs)
 		}
 	}
-	add(c18case{c18pkg, "absent", "default"})
+	add(c18case{c18pkg, "absent", "default", ""})
+	// the invoking shell's MOCKERY_* overrides are not "the documented defaults": the written file must not depend on them
+	for _, e := range []string{"MOCKERY_FILENAME=ci_mocks.go", "MOCKERY_RECURSIVE=true", "MOCKERY_LOG_LEVEL=debug", "MOCKERY_ALL=false", "MOCKERY_DIR=elsewhere", "MOCKERY_TEMPLATE=matryer",
+		"MOCKERY_FORMATTER=gofmt", "MOCKERY_PKGNAME=envpkg", "MOCKERY_STRUCTNAME=Env{{.InterfaceName}}", "MOCKERY_FORCE_FILE_WRITE=false", "MOCKERY_INCLUDE_INTERFACE_REGEX=Foo", "MOCKERY_REQUIRE_TEMPLATE_SCHEMA_EXISTS=false"} {
+		add(c18case{c18pkg, "absent", "default", e})
+		add(c18case{c18pkg, "content", "relative", e})
+	}
 	for _, n := range names {
-		add(c18case{n, "absent", "default"})
+		add(c18case{n, "absent", "default", ""})
 	}
 	for _, s := range states {
 		for _, t := range targets {
-			add(c18case{c18pkg, s, t})
+			add(c18case{c18pkg, s, t, ""})
 		}
 	}
 	for _, n := range names {
-		add(c18case{n, "content", "default"})
+		add(c18case{n, "content", "default", ""})
 	}
 	if !core.Quick(c.Tier) {
 		for _, n := range names {
 			for _, s := range states {
 				for _, t := range targets {
-					add(c18case{n, s, t})
+					add(c18case{n, s, t, ""})
 				}
 			}
 		}
@@ -123,7 +133,11 @@ func C18(c *core.Ctx) error {
 		before := core.Snapshot(root)
 		cmd := append([]string{"init"}, args...)
 		cmd = append(cmd, "--", cs.name)
-		r := core.Run(root, core.UserEnv(), time.Minute, "", c.Mockery, cmd...)
+		var initEnv []string
+		if cs.env != "" {
+			initEnv = []string{cs.env}
+		}
+		r := core.Run(root, core.UserEnv(initEnv...), time.Minute, "", c.Mockery, cmd...)
 		after := core.Snapshot(root)
 		c.Ev.Add("transitions", 1)
 		c.Ev.Add("evaluations", 1)
@@ -264,7 +278,7 @@ func C18(c *core.Ctx) error {
 	c.Ev.Set("exhaustive", !c.Expired() && done == len(cases))
 	c.Ev.Set("cases", len(cases))
 	c.Ev.Set("bound", map[bool]string{true: "dev<=1 from (valid path, absent, default target) over 47 package strings, 6 target states x 4 --config spellings, and every package string against an existing user file", false: "full product 47 package strings x 6 target states x 4 --config spellings"}[core.Quick(c.Tier)])
-	c.Ev.Set("rule", "each case = fresh scratch module + initial state of the target path + package string; `mockery init` from the working tree is run once; whole-tree content snapshot before/after; written file parsed as YAML, loaded with `mockery showconfig`, compared (differential) with a minimal hand-written config, and for the real package a plain `mockery` run must mock exactly all its interfaces; non-trivial = init succeeded and all round-trip checks were evaluated")
+	c.Ev.Set("rule", "each case = fresh scratch module + initial state of the target path + package string (+ one of 12 MOCKERY_* variables exported while init runs, for an absent and for an occupied target); `mockery init` from the working tree is run once; whole-tree content snapshot before/after; written file parsed as YAML, loaded with `mockery showconfig`, compared (differential) with a minimal hand-written config, and for the real package a plain `mockery` run must mock exactly all its interfaces; non-trivial = init succeeded and all round-trip checks were evaluated")
 	c.Ev.Assume("strings that cannot be Go import paths are checked for no-crash, no-clobber and YAML round trip only")
 	return nil
 }
